@@ -524,9 +524,7 @@ class SimplePredicateVisitor(
         # Docstring inherited.
         if result is None:
             return None
-        from . import tree
-
-        return tree.Predicate._from_leaf(original).logical_not()
+        return result.logical_not()
 
     def apply_logical_or(
         self,
